@@ -176,6 +176,17 @@ example :
     (runY { facts with panicBoxed := true } 3 progRepanic).status = .panicErr (some (.re (.re (.int 143)))) ∧
     runY { facts with panicBoxed := true } 3 progRecIs = ⟨[.recIs false], .ok, true⟩ := by decide
 
+/-- `var p *int; panic(p)`: a typed nil is a value like any other — recover() returns it (not nil), the comparison
+    `x.(*int)` + `== nil` holds for that kind only, a re-panic hands it on, Eval reports it (seed C06-4) -/
+example :
+    runY facts 3 (.defer (.recoverIs (.tnil .ptr) (.recover true .done)) (.lit 0) (.panic (.tnil .ptr) .done)) =
+      ⟨[.recIs true, .recd none], .ok, true⟩ ∧
+    runY facts 3 (.defer (.recoverIs (.tnil .map) .done) (.lit 0) (.panic (.tnil .ptr) .done)) = ⟨[.recIs false], .ok, true⟩ ∧
+    runY facts 3 (.defer (.repanic (.print "not reached" .done)) (.lit 0) (.panic (.tnil .slice) .done)) =
+      ⟨[], .panicErr (some (.tnil .slice)), true⟩ ∧
+    Spec.run 3 (.defer (.repanic (.print "not reached" .done)) (.lit 0) (.panic (.tnil .slice) .done)) =
+      ⟨[], .panicErr (some (.tnil .slice)), true⟩ := by decide
+
 /-- F06-4 (fixed) `defer func(){ fmt.Println("rec", recover()) }(); defer panic("dp"); fmt.Println("body")` -/
 def progDeferPanic : Code :=
   .defer (.recover true .done) (.lit 0) (.deferPanic (.str "dp") (.print "body" .done))
